@@ -259,12 +259,17 @@ func runTLC(tlaDir, scratch string) (dot string, states string, err error) {
 }
 
 func runTLCSpec(tlaDir, scratch, spec string) (dot string, states string, err error) {
+	return runTLCSpecCfg(tlaDir, scratch, spec, spec)
+}
+
+// runTLCSpecCfg: module spec.tla checked under configuration cfg.cfg (several configurations of one module).
+func runTLCSpecCfg(tlaDir, scratch, spec, cfg string) (dot string, states string, err error) {
 	if _, e := exec.LookPath("tlc"); e != nil {
 		return "", "", fmt.Errorf("tlc not installed")
 	}
-	dir := filepath.Join(scratch, "tlc-"+spec)
+	dir := filepath.Join(scratch, "tlc-"+cfg)
 	os.MkdirAll(dir, 0o755)
-	for _, f := range []string{spec + ".tla", spec + ".cfg"} {
+	for _, f := range []string{spec + ".tla", cfg + ".cfg"} {
 		b, e := os.ReadFile(filepath.Join(tlaDir, f))
 		if e != nil {
 			return "", "", e
@@ -272,7 +277,7 @@ func runTLCSpec(tlaDir, scratch, spec string) (dot string, states string, err er
 		os.WriteFile(filepath.Join(dir, f), b, 0o644)
 	}
 	dot = filepath.Join(dir, "graph.dot")
-	cmd := exec.Command("tlc", "-workers", "4", "-dump", "dot,actionlabels", dot, spec+".tla")
+	cmd := exec.Command("tlc", "-workers", "4", "-config", cfg+".cfg", "-dump", "dot,actionlabels", dot, spec+".tla")
 	cmd.Dir = dir
 	done := make(chan struct{})
 	var out []byte
